@@ -149,7 +149,9 @@ def heapmin(ctx: Any) -> List[Ob]:
             if s in dep:
                 continue
             try:
-                p = lf.poly(prog, proc.module, s, lambda x: ('D' if self_attr(x, me) == '_min_time_between_queries_millis' else ('NOW' if isinstance(x, ast.Name) else None)))
+                from .common import expand
+
+                p = lf.poly(prog, proc.module, expand(proc, s), lambda x: ('D' if self_attr(x, me) == '_min_time_between_queries_millis' else ('NOW' if isinstance(x, ast.Call) and call_name(x) == 'current_time_millis' else None)))
                 polls.append(p == lf.parse_poly('NOW + D'))
             except lf.NotLinear:
                 polls.append(False)
